@@ -27,6 +27,29 @@ TD = {"uint8": torch.uint8, "int16": torch.int16, "int32": torch.int32, "int64":
 TMAX = {"uint8": 255, "int8": 127, "int16": 32767, "int32": 2 ** 31 - 1, "int64": 2 ** 62, "float32": 2 ** 24}
 
 
+def _snapshot(X):
+    import copy
+    if isinstance(X, torch.Tensor):
+        return X.clone()
+    if isinstance(X, pandas.DataFrame):
+        return X.copy(deep=True)
+    return [copy.deepcopy(x) if not isinstance(x, torch.Tensor) else x.clone() for x in X]
+
+
+def _unchanged(X, keep):
+    if isinstance(X, torch.Tensor):
+        return torch.equal(X, keep)
+    if isinstance(X, pandas.DataFrame):
+        return X.equals(keep)
+    def eq(a, b):
+        if isinstance(a, torch.Tensor):
+            return torch.equal(a, b)
+        if isinstance(a, (pandas.Series, pandas.DataFrame)):
+            return a.equals(b)
+        return bool((numpy.asarray(a) == numpy.asarray(b)).all())
+    return len(X) == len(keep) and all(eq(a, b) for a, b in zip(X, keep))
+
+
 def _form2(rows, form):
     ex = [r[0] for r in rows]
     an = [r[1] for r in rows]
@@ -56,8 +79,17 @@ def count_case(case, ctx):
     mx = max(max(sum(r) for r in want), max(sum(want[e][a] for e in range(E)) for a in range(Am)))
     dname = case["dtype"] if mx <= TMAX[case["dtype"]] else "int64"
     X = _form2(rows, case["form"])
+    keep = _snapshot(X)
     kw = {} if shape is None else {"shape": tuple(shape)}
+    if case.get("pairwise_first"):
+        # the same table object was handed to pairwise_annotations before (typical pipeline: pairs first, then per-example counts)
+        try:
+            pairwise_annotations(X)
+        except Exception:  # noqa: BLE001
+            pass
+        ctx.label("after_pairwise_on_same_table")
     y = sut(count_annotations, X, dtype=TD[dname], dim=dim, **kw)
+    require(_unchanged(X, keep), "count-input-modified", "the caller's annotation table was changed")
     W = torch.tensor(want, dtype=torch.int64)
     if dim == 0:
         W = W.sum(dim=0)
@@ -92,8 +124,10 @@ def pair_case(case, ctx):
     mx = max(max(r) for r in want)
     dname = case["dtype"] if mx <= TMAX[case["dtype"]] else "int64"
     X = _form2(rows, case["form"])
+    keep = _snapshot(X)
     kw = {} if shape is None else {"shape": shape}
     y = sut(pairwise_annotations, X, dtype=TD[dname], symmetric=sym, **kw)
+    require(_unchanged(X, keep), "pairwise-input-modified", "the caller's annotation table was changed")
     W = torch.tensor(want, dtype=torch.int64)
     require(tuple(y.shape) == (Am, Am) and torch.equal(y.to(torch.int64), W), "pairwise-wrong",
             lambda: "rows=%r symmetric=%r got %s want %s" % (rows[:12], sym, y.tolist(), W.tolist()))
@@ -143,8 +177,10 @@ def spacing_case(case, ctx):
     mx = max(want.values()) if want else 0
     dname = case["dtype"] if mx <= TMAX[case["dtype"]] else "int64"
     X = _form4(rows, case["form"])
+    keep = _snapshot(X)
     kw = {} if shape is None else {"shape": shape}
     y = sut(pairwise_annotations_spacing, X, max_distance=D, dtype=TD[dname], symmetric=True, **kw)
+    require(_unchanged(X, keep), "spacing-input-modified", "the caller's annotation table was changed")
     require(tuple(y.shape) == (Am, Am, D), "spacing-shape", lambda: "%s want %s" % (tuple(y.shape), (Am, Am, D)))
     W = torch.zeros((Am, Am, D), dtype=torch.int64)
     for (a, b, g), v in want.items():
@@ -189,14 +225,15 @@ def table2(draw):
     nE = draw(st.integers(1, 8))
     nA = draw(st.integers(1, 10))
     n = draw(st.one_of(st.integers(1, 12), st.integers(1, 200)))
-    rows = [[draw(st.integers(0, nE - 1)), draw(st.integers(0, nA - 1))] for _ in range(n)]
+    gap = draw(st.sampled_from([1, 1, 2, 3]))          # example ids with gaps: some examples have no annotation at all
+    rows = [[draw(st.integers(0, nE - 1)) * gap, draw(st.integers(0, nA - 1))] for _ in range(n)]
     return rows
 
 
 @st.composite
 def count_strategy(draw):
     rows = draw(table2())
-    case = {"rows": rows, "dim": draw(st.sampled_from([None, 0, 1])),
+    case = {"rows": rows, "dim": draw(st.sampled_from([None, 0, 1])), "pairwise_first": draw(st.integers(0, 3)) == 0,
             "dtype": draw(st.sampled_from(["uint8", "int16", "int32", "int64", "float32"])),
             "form": draw(st.sampled_from(["tensor", "tensor32", "tuple_series", "tuple_numpy", "list_mixed"]))}
     if draw(st.booleans()):
